@@ -71,4 +71,8 @@ theorem authentication_arguments :
 theorem did_size_bound :
     exact "dtc.snapshot_did_size" (fun k => snapByDtcInterpret { didSize := k.toNat, tol := true } 4 (if k < 0 then [] else [4, 0x12, 0x34, 0x56, 0x00])) = true := by decide +kernel
 
+/-- the same width guard on the by-record-number path (sub-function 0x05) -/
+theorem did_size_bound_by_record :
+    exact "dtc.snapshot_did_size_by_record" (fun k => snapByRecordInterpret { didSize := k.toNat, tol := true } [5, 0x02]) = true := by decide +kernel
+
 end Uds.Tie.Bounds
